@@ -22,7 +22,8 @@ RULE = ("exhaustive enumeration: (a) iterate_chunks over every shape with 1-3 di
         "(d) view_shape over every view (None, Ellipsis, ints, positive-step slices, tuples of those up to ndim, "
         "Ellipsis inside tuples, integer index arrays, boolean masks) on every shape <=3-d of 1..3, non-trivial = view not None/Ellipsis; "
         "(e) categorical_ndarray / unique / index_lookup over every array over {a,b,c} of length <=5 (and 2x2, 2x3, 3x2), "
-        "with and without explicit categories, every 1-d slice view, non-trivial = >=2 distinct values. "
+        "with and without explicit categories, every 1-d slice view; the 2-d arrays in C order, Fortran order, as a transposed view and "
+        "as the transpose itself, plus transposed views of the categorical array; non-trivial = >=2 distinct values. "
         "Cases are distinct by construction of the enumeration and are counted, not hashed.")
 EXHAUSTIVE = {"quick": "chunks dims<=3 of 1..5; slices L<=6 steps<=3; strides shapes<=3d of 1..3; categorical len<=5 over 3 letters",
               "thorough": "chunks +4-d of 1..4; slices L<=8 steps<=4; categorical len<=6"}
@@ -354,17 +355,36 @@ def _eq_nan(a, b):
     return a.shape == b.shape and bool(np.all((a == b) | (np.isnan(a) & np.isnan(b))))
 
 
-def _cat_one(values, shape, cats, view):
+def _layout(raw, layout):
+    """memory layouts of the same values: C order, Fortran order, or a transposed view of a C-ordered array"""
+    if layout == "f":
+        return np.asfortranarray(raw)
+    if layout == "t":
+        return np.ascontiguousarray(raw.T).T
+    return raw
+
+
+def _cat_one(values, shape, cats, view, layout="c"):
     from glue.utils.array import categorical_ndarray
-    spec = {"k": "cat1", "values": values, "shape": shape, "cats": cats, "view": view}
+    spec = {"k": "cat1", "values": values, "shape": shape, "cats": cats, "view": view, "layout": layout}
     raw = np.array(values).reshape(shape)
+    if layout == "T":          # the transpose itself: other shape, non-contiguous
+        raw = raw.T
+    else:
+        raw = _layout(raw, layout)
     if cats is None:
         arr = categorical_ndarray(raw)
         categories = sorted(set(values))
     else:
         arr = categorical_ndarray(raw, categories=np.array(cats))
         categories = list(cats)
-    if view is not None:
+    if view == "T":            # a transposed view of the categorical array (inherits the categories)
+        arr = arr.T
+        raw = raw.T
+    elif view == "T1":
+        arr = arr.T[1:]
+        raw = raw.T[1:]
+    elif view is not None:
         arr = arr[slice(*view)]
         raw = raw[slice(*view)]
     try:
@@ -392,7 +412,7 @@ def _cat_one(values, shape, cats, view):
 def fn_cat(spec, rec):
     values, shape = spec["values"], spec["shape"]
     if spec["k"] == "cat1":
-        _cat_one(values, shape, spec["cats"], spec["view"])
+        _cat_one(values, shape, spec["cats"], spec["view"], spec.get("layout", "c"))
         rec.nt(len(set(values)) > 1)
         return
     from glue.utils.array import unique, index_lookup
@@ -407,12 +427,14 @@ def fn_cat(spec, rec):
                     if (a, b, c) != (None, None, None):
                         views.append([a, b, c])
     else:
-        views += [[None, 1, None], [1, None, None]]
+        views += [[None, 1, None], [1, None, None], "T", "T1"]
+    layouts = ["c"] if len(shape) == 1 else ["c", "f", "t", "T"]
     for cats in CATSETS:
         for view in views:
-            _cat_one(values, shape, cats, view)
-            ev += 1
-            nt += nontriv
+            for layout in layouts:
+                _cat_one(values, shape, cats, view, layout)
+                ev += 1
+                nt += nontriv
     # unique(): U sorted unique, U[I] == array
     raw = np.array(values).reshape(shape)
     U, I = unique(raw)
@@ -420,13 +442,19 @@ def fn_cat(spec, rec):
         raise Mismatch("unique/wrong", {"U": U.tolist(), "I": I.tolist()})
     ev += 1
     nt += nontriv
-    if len(shape) == 1:
-        for cats in CATSETS[1:]:
-            r = index_lookup(raw, np.array(cats))
-            if not _eq_nan(r, _codes_expected(values, cats)):
-                raise Mismatch("index_lookup/wrong", {"got": r.tolist()}, {"k": "cat1", "values": values, "shape": shape, "cats": cats, "view": None})
+    for cats in CATSETS[1:]:
+        for layout in layouts:
+            arr = raw.T if layout == "T" else _layout(raw, layout)
+            r = index_lookup(arr, np.array(cats))
+            exp = _codes_expected(arr.ravel().tolist(), cats).reshape(arr.shape)
+            if not _eq_nan(r, exp):
+                raise Mismatch("index_lookup/wrong" + ("" if len(shape) == 1 else "/nd/" + layout), {"got": np.asarray(r).tolist(), "expected": exp.tolist()},
+                               {"k": "cat1", "values": values, "shape": shape, "cats": cats, "view": None, "layout": layout})
             ev += 1
             nt += nontriv
+        U2, I2 = unique(raw.T)
+        if U2.tolist() != sorted(set(values)) or not np.array_equal(U2[I2], raw.T):
+            raise Mismatch("unique/wrong/transposed", None)
     rec.bulk(ev, nt)
 
 
